@@ -12,893 +12,781 @@ Definition show_fres (r : fres) : string :=
   end.
 Definition check (rs : list rune) : string := digest (show_fres (format_res rs)).
 Definition full (rs : list rune) : string := show_fres (format_res rs).
-Eval vm_compute in ("<<<M1562>>>" ++ check (runes_of_ascii "
-packet Z9_	//x
-    {@calculatedFrom(
-	""1"" ) match 
-body
-	as
-u8x
-
-    {[7
-	] :
-u
-,	[ 7,
-    00 
-, ""a\""b""
-,""""
-,
-
-    ""\n"" 
-, 00
-
-]
-
-    :
-charz , 1
-
-    :	// c
-    	Packet ,""" ++ [28040; 24687]%N ++ runes_of_ascii """ :
-    f32a
-    ,  00 :	// trailing space 
-    len
-	}	,
-
-    @lengthOf(  calculatedFrom
-
-) MetaDataX
-
-    ,
-
-Packet @lengthOf(
-
-    int )
-    ,  repeat 	 // `tick` ""quote"" 'q'
-char[	7 
-]
-calculatedFrom,
-@calculatedFrom(
-""a\\""
-	)
-	zchar[ 	 //
-	255 // " ++ [128512]%N ++ runes_of_ascii " emoji
-	]f32a@calculatedFrom(
-    """ ++ [233]%N ++ runes_of_ascii "t" ++ [233]%N ++ runes_of_ascii """  ) 
-,
-@calculatedFrom(
-""a\""b"" // packet A { u8 x, }
-)char[
-	7 
-
-    //	t
-    ]
-
-    i8i8
-	@calculatedFrom(
-
-    ""a\\""
-    )
-
-    `crlf
-line`
-,
-
-zchar[ 0123456789
-    ]
-
-    x  `line1
-line2`
-
-    ,@leftPad
-
-( 
-)
-repeat
-u64
-stringy
-,
-	@lengthOf(	x )
-repeat  body {//	t
-  Z9_ {
-repeat	asx  , repeat 
-crc
-    i64_// " ++ [27880; 37322]%N ++ runes_of_ascii "
-    ,
-
-repeat rootA
-{  repeat rootA MetaDataX
-    `line1
-line2`
-        // `tick` ""quote"" 'q'
-	,
-match
-i64_ 
-as 
-calculatedFrom	{
-
-7 : x
-[	7]
-:stringy	,
-
-    ""1"" 
-: i8i8,
-
-[ ""1"" ,
-42
-    ,
-        // trailing space 
-/// triple
-		""" ++ [233]%N ++ runes_of_ascii "t" ++ [233]%N ++ runes_of_ascii """	, 
-10 ,
-
-255
-	,	0 
-,
-
-10 
-]
-    : u ,
-
-""x y"" 
-:
-
-    i8i8 } 
-
+Eval vm_compute in ("<<<M360>>>" ++ check (runes_of_ascii "options
+{ MetaDataX =
+// packet A { u8 x, }
 // `tick` ""quote"" 'q'
-
-//x
-,
-uint64
-	_x
-`
-` , 
-char[
-
-0
-
-]
-	i64_
-
-@calculatedFrom( ""CRC32"" )
-    ,
-	},
-
-x_y_z{	char[]T 
-	// a // b
-  	// @lengthOf(
-    ,
-}
-
-, }
-	,  repeat
-	u64
-
-Foo	`a\`, 
-uint8
-
-    uint8x
-
-,  match 
-
-    //	t
-
-  // trailing space 
-	roots
-	as chars
-{
-
-1	: _x
-""a\""b""
-    :
-
-uint8x
-    , 
-42:metadata// " ++ [128512]%N ++ runes_of_ascii " emoji
-	,// `tick` ""quote"" 'q'
-
-[// @lengthOf(
-  	""\n""	,
-    255
-    ] :
-zchar [
-""" ++ [233]%N ++ runes_of_ascii "t" ++ [233]%N ++ runes_of_ascii """
-,
-3  ,
-
-4294967296
-,  // trailing space 
-
-  0123456789 ,
-
-""x y""
-]
-
-: metadata
-    [ // c
-
-	""it's""
-, ""// no comment"" ]: 
-Z9_,
-}
-
-,
-} , }	// a // b
-
-MetaData
-rootA
-{ char[	4294967296  ]	msg_type
-
-,// @lengthOf(
-
-	char[]u128
-	,uint64 a1
-    ,int8 
-crc ,	Pad
-
-msg_type `doc` 
-,
-	} 
-    //	t
-
-/// triple
-    packet x_y_z	{  @lengthOf(crc  ) match packetx
-as
-    f32a
-
-{ 0123456789
-    : A
-	,  00 :
-
-    u  // @lengthOf(
-	} 
-, }
-
-")).
-Eval vm_compute in ("<<<M1863>>>" ++ check (runes_of_ascii "MetaData Pad {
-    char[] Packet,
-    f32a i64_ `tab	here`,
-}
-
-root packet As {
-    @calculatedFrom(""CRC32"")
-    @calculatedFrom(""1"")
-    @calculatedFrom(""// no comment"")
-    As As `say ""hi""`,
-    Foo msg_type,
-    calculatedFrom @calculatedFrom(""\n""),
-    zchar {
-        zchar[7] charz @calculatedFrom(""x y""),
-        Z9_ `{ , }`,
-        repeat int {
-            zchar[3] i8i8 @lengthOf(chars),
-            match zchar as o {
-                1 : u128,
-                0 : stringy,
-                42 : charz,
-                ""x y"" : a1,
-                3 : Header,
-                4294967296 : o,
-            },
-            repeat Header `two words`,
-            match u8x as u8x {
-                [10] : pack,
-                1 : BodyLength,
-                //
-                // " ++ [27880; 37322]%N ++ runes_of_ascii "
-                0 : MetaDataX,
-                42 : calculatedFrom,
-            },
-        },
-    },// " ++ [27880; 37322]%N ++ runes_of_ascii "
-}
-
+true	}  root
 // `tick` ""quote"" 'q'
 /// triple
-packet i64_ {
-}
-
-root packet x {
-    Header {
-        char[0] _x `// not a comment`,
-    },
-    @lengthOf(A)
-    uint32 f32a @calculatedFrom(""abc""),
-    repeat i16 trueish `u8 x,`,
-    @rightPad(' ')
-    @calculatedFrom(""a\\"")
-    float,
-    repeat char[7] zchar,
-    @tag(10)
-    repeat a1 falsey `say ""hi""`,
-    @lengthOf(len)
-    repeat zchar[00] uint8x,
-}
-
-MetaData metadata {
-    u8 body,
-}")).
-Eval vm_compute in ("<<<M231>>>" ++ check (runes_of_ascii "root packet
-    metadata {  @lengthOf(
-options1
-) int32 zchar @calculatedFrom(""// no comment"" ) `
-` , repeat calculatedFrom `it's`, //
-match
-    BodyLength as lengthOf
-{ 3 /// triple
-:	leftPad , }, repeat
-u128, char[ 10
-] chars  ,// @lengthOf(
-falsey
-@calculatedFrom( ""x y"") // c
-`{ , }` ,	@tag(42
-)	float64
-    i64_
-    // packet A { u8 x, }
-    , u8x@calculatedFrom(  ""{,}"" ) `two words`
-//	t
-// trailing space 
-, @lengthOf(T)
-char[	255]  pack `it's`
-,match MetaDataX
-as i64_{
-    //
-    """ ++ [28040; 24687]%N ++ runes_of_ascii """ // @lengthOf(
-:Header , 0
-    //
-    : x_y_z 3 : // `tick` ""quote"" 'q'
-int""abc""
-    // @lengthOf(
-    : u8x ,
-    } , } packet i64_
-{@rightPad ( ) /// triple
-pack {
-match MetaDataX
-    as trueish { 1 // @lengthOf(
-:
-    len
-00	: falsey // packet A { u8 x, }
-,"""" :
-x ,
-}, } , @tag(1) char[]int @lengthOf(	metadata
-) // packet A { u8 x, }
-, a1 @lengthOf( calculatedFrom ) ,
-    @tag( 7
-    )tag@lengthOf(u ) , BodyLength /// triple
-@calculatedFrom( ""it's""
-) `say ""hi""` ,string
-msg_type ,
-    }
-    MetaData
-    Logon { BodyLength
-_x `it's` , int32 body ,
-    // trailing space 
-    } root	packet body{  }
-")).
-Eval vm_compute in ("<<<M1829>>>" ++ check (runes_of_ascii "// top
-options {
-    // c1a
-    // c1b
-    LittleEndian = false;
-    ArrayPrefixLenType = u8;// c9
-    FixedStringPadFromLeft = true;// c13
-    FixedStringPadChar = '0';
-    // c17
-}// c18
-
-packet Heartbeat {
-    // c21
-    string lastPx,
-    uint8 Qty,
-    // c27
-    i64 Acct,
-    // c30
-    char[4] Ref,// c35
-}
-
-packet Fill {
-    // c39
-    uint8 Ref,
-    Heartbeat,// c44a
-    // c44b
-    f32 OrderId,// c47
-    repeat f32 x,// c51a
-    // c51b
-}
-
-root packet Order {
-    // c56a
-    // c56b
-    zchar[2] OrderId,
-    // c61
-    zchar[2] Acct,
-    // c66
-    zchar[1] Note,
-    // c71
-    zchar[9] Qty,// c76a
-    // c76b
-    string price,// c79
-    string tag7,// c82a
-    // c82b
-    u32 x,// c85a
-    // c85b
-    match x as Body {
-        // c90
-        123 : Fill,
-        // c94a
-        // c94b
-        112 : Heartbeat,
-        // c98
-    },// c100
-    u32 seqNo @calculatedFrom(""CRC32""),
-    // c106
-}// c107")).
-Eval vm_compute in ("<<<M188>>>" ++ check (runes_of_ascii "// packet A { u8 x, }
-root
-    packet
-    leftPad { @calculatedFrom(
-    //x
-    ""`tick`"" )	@rightPad( )
-    // " ++ [128512]%N ++ runes_of_ascii " emoji
-    string_
-// `tick` ""quote"" 'q'
-// a // b
-@lengthOf(	tag
-    ) `a\` ,i64 T
-    `" ++ [233]%N ++ runes_of_ascii "`,//	t
-}
 packet
-Pad// @lengthOf(
-{ @lengthOf(	float ) char[] x@calculatedFrom(
-    ""a\""b"")
-    , // trailing space 
-@tag(
-    0// " ++ [128512]%N ++ runes_of_ascii " emoji
-) // " ++ [27880; 37322]%N ++ runes_of_ascii "
-repeatCount// packet A { u8 x, }
-,
-repeat rootA{
-_x
-    ,zchar[3 ]roots
-    /// triple
-    `crlf
-line` ,
-}
-,
+u8x{ repeat
+    uint16 u8x `" ++ [28040; 24687; 31867; 22411]%N ++ runes_of_ascii "` , @tag( //
+42
+// " ++ [128512]%N ++ runes_of_ascii " emoji
 /// triple
-// a // b
-match
-    metadata as BodyLength
-    { [
-    // c
-    10 , 10 , ""a\""b"", """"	, ""\n""
-,  ""a\\"" , 4294967296]  :
-    u
+) char[ /// triple
+7 ]
+    trueish @lengthOf(
+    // " ++ [27880; 37322]%N ++ runes_of_ascii "
+    Pad
+    ), tag @lengthOf(A)`say ""hi""` , float rootA
+, // " ++ [27880; 37322]%N ++ runes_of_ascii "
+Foo , repeat uint32 calculatedFrom
 , }
-, repeat	i64_ Packet `" ++ [28040; 24687; 31867; 22411]%N ++ runes_of_ascii "`
-,@tag( // packet A { u8 x, }
-65535)
-    char[] float`it's`
-, char[7 ]
-    x @calculatedFrom( ""{,}"" ),
-    }MetaData leftPad// a // b
-{ body rootA
+root packet u128 { repeat
+Packet metadata, repeat
+    zchar[
+    0123456789 ] len
+`u8 x,` ,
+f32 BodyLength @lengthOf( Z9_ ) `it's` ,
+match crc as Packet { 0
+//x
+//x
+:
+    i64_ , [ 255]
+:rootA ,
+    [""a	b""	,
+    ""\" ++ [233]%N ++ runes_of_ascii """
+    , ""\" ++ [233]%N ++ runes_of_ascii """	,// `tick` ""quote"" 'q'
+0 /// triple
+, 4294967296
+] :
+i8i8 , } , @tag( 1  )@calculatedFrom(	""\" ++ [233]%N ++ runes_of_ascii """
+    )string f32a@calculatedFrom( ""abc"")  , repeat As{ matchKey
+    {crc
+    /// triple
+    @calculatedFrom(
+    ""// no comment"" //x
+),
+} ,lengthOf//
 `crlf
 line`
-, int64
-msg_type
-`doc`
-    , // @lengthOf(
-}
-")).
-Eval vm_compute in ("<<<M1124>>>" ++ check (runes_of_ascii "// top
-options
-    // c0
-{ // c1
-uint8x // c2a
-  // c2b
-= 007 // c4a
-  // c4b
-; lengthOf
-    // c6
-= i8 ; // c9a
-  // c9b
-} packet i64_
-    // c12
-{ // c13
-@calculatedFrom( // c14
-""1""
-    // c15
-) // c16
-@tag( // c17
-3 )
-    // c19
-@lengthOf(
-    // c20
-rootA ) // c22
-repeat // c23
-int8 // c24a
-  // c24b
-Packet // c25a
-  // c25b
-`u8 x,` // c26
-, // c27
-} // c28a
-  // c28b
-root
-    // c29
-packet // c30a
-  // c30b
-stringy
-    // c31
-{ // c32a
-  // c32b
-@rightPad ( ' ' // c35
-) // c36
-repeat // c37a
-  // c37b
-char[ // c38
-10 // c39
-] repeatCount // c41a
-  // c41b
-, // c42
-@tag( // c43a
-  // c43b
-255
-    // c44
-) // c45
-float64
-    // c46
-msg_type
-    // c47
-@calculatedFrom( ""packet""
-    // c49
-) // c50a
-  // c50b
-, // c51a
-  // c51b
-} // c52
-")).
-Eval vm_compute in ("<<<M117>>>" ++ check (runes_of_ascii "// a // b
-packet	u128  {
-    repeat chars	{i64 u8x
-`
-`// a // b
-, // c
-_x
-@lengthOf(  falsey
-    )
-,
-    Logon
-`" ++ [28040; 24687; 31867; 22411]%N ++ runes_of_ascii "` ,repeat char[]
-trueish `tab	here` ,}
-    , } root packet T { match Packet
-as
-trueish {
-""packet"" : charz
+    // packet A { u8 x, }
     ,
-    [4294967296 , ""1"" ] : A , 7 : x
-    // " ++ [27880; 37322]%N ++ runes_of_ascii "
-    , [
-    // a // b
-    7 ,""a	b""
-    ]
-:	u128 255 :
-As
-    3:
-Packet,} ,
-//	t
-// trailing space 
-pack
-`a\` , @calculatedFrom( """ ++ [233]%N ++ runes_of_ascii "t" ++ [233]%N ++ runes_of_ascii """ //	t
-)
-    rootA matchKey  ,
-char[ 65535]/// triple
-leftPad @lengthOf( roots
-    //
-    ) , repeat MetaDataX { u64
-    a1 @calculatedFrom(""x y"" ) `doc`  ,//	t
-uint8 falsey
-,
-match BodyLength as A
-{  [ ""\" ++ [233]%N ++ runes_of_ascii """,255 ,"""" ,
-    ""it's"" ] :	Foo ,
-3 : u128}	, } ,	}
-")).
-Eval vm_compute in ("<<<M1344>>>" ++ check (runes_of_ascii "options { 
-LittleEndian 
-=
-false;
-    ArrayPrefixLenType=  u8 ;
-
-    FixedStringPadFromLeft
-	= true
-
-;
-    FixedStringPadChar
-= '0'; } packet Heartbeat{
-
-string
-
-    lastPx
-,  uint8
-Qty ,i64
-Acct , 
-char[
-4
-]
-    Ref,
-
-    }  packet Fill	{
-
-    uint8
-Ref ,
-
-Heartbeat	,
-	f32 OrderId
-
-, repeat
-	f32
-x , 
-}
-root packet
-
-Order {zchar[	2
-    ]  OrderId ,
-    zchar[
-2
-    ] Acct
-,zchar[ 
-1
-]Note,
-zchar[ 9]
-
-    Qty
-,
-string  price 
-,	string tag7
-
-    ,u32
-x ,match 
-x as
-
-    Body	{
-123
-:	Fill 
-,
-
-112:
-
-    Heartbeat,
-}
-
-    ,
-
-u32 seqNo@calculatedFrom(
-	""CRC32"")
-	,	}
-")).
-Eval vm_compute in ("<<<M66>>>" ++ check (runes_of_ascii "packet	int {// @lengthOf(
-repeat
-string
-    BodyLength
-    `a\`
-    , } packet repeatCount { @lengthOf( x_y_z ) crc ,
-    match Packet as
-Z9_{""// no comment"" :MetaDataX ,
-//	t
 // a // b
-[  00, 7]: chars ,""CRC32""
-    : zchar 42: stringy //	t
-, [ ""a\""b"",""1""// a // b
-] : u ,
-},
-@rightPad
-( ' ' )
-@lengthOf( i64_//x
+// a // b
+T //
+Pad `a\` , repeat i8i8 charz ,// a // b
+}  , }
+    packet	packetx{ @lengthOf( Packet
+    )
+repeat
+    uint8x
+//
+// " ++ [128512]%N ++ runes_of_ascii " emoji
+`line1
+line2` ,@tag( 0123456789 ) string BodyLength @calculatedFrom(  """ ++ [28040; 24687]%N ++ runes_of_ascii """) ,// trailing space 
+zchar[42
+]
+MetaDataX
+    //
+    , char
+    A @lengthOf(
+    /// triple
+    tag ) `two words`, @tag(
+    10 ) @calculatedFrom(""" ++ [28040; 24687]%N ++ runes_of_ascii """
+// `tick` ""quote"" 'q'
+//x
 )
+@calculatedFrom(
+    ""x y"" ) char[ 7 ] repeatCount @calculatedFrom(
+""// no comment""
+    )	,@calculatedFrom(
+""it's"" )	char[	65535 ]
+packetx`// not a comment` ,
+@leftPad //	t
+( ' ' ) match  tag as packetx
+{ 00 : int ,
+    } , @tag( 7
+//
+// " ++ [128512]%N ++ runes_of_ascii " emoji
+)@lengthOf(
+    // @lengthOf(
+    float
+    ) @tag(  0123456789	) Z9_ , @tag( // c
+00 )tag { uint16
+MetaDataX
+    ,
+    u tag	`tab	here`,float64 Packet @calculatedFrom( ""{,}"" )	, x_y_z u128 ,
+} , char[] msg_type @lengthOf( calculatedFrom ) `line1
+line2`
+    , } MetaData // " ++ [27880; 37322]%N ++ runes_of_ascii "
+float{
+    uint32
+crc, charz msg_type , u128 crc , string stringy
+`" ++ [233]%N ++ runes_of_ascii "`, }")).
+Eval vm_compute in ("<<<M1499>>>" ++ check (runes_of_ascii "// a // b
+packet
+
+stringy{string
+zchar	,
+
     repeat
-f64
-x `two words`
-    , @calculatedFrom(""`tick`""	) int64 falsey @lengthOf(//x
-u128 ) , charz
+	T
+
+,
+
+    match u
+	as	charz
     {
+	007 
     //x
-    char[]
-    T
+    : 
+    //	t
+	// @lengthOf(
+    float// trailing space 
+
+,
+	""\" ++ [233]%N ++ runes_of_ascii """:Logon  ""a	b""
+: 
+	    //	t
+//	t
+
+  pack  ,
+
+    }
+    ,
+    match	uint8x
+as 
+    // " ++ [27880; 37322]%N ++ runes_of_ascii "
+	roots
+	{
+
+1 
+  // `tick` ""quote"" 'q'
+: 
+len
+
+,}
+	    //x
+    	// " ++ [27880; 37322]%N ++ runes_of_ascii "
+, } packet  zchar {
+roots
+options1
+//x
+    `// not a comment`,
+
+    int64
+	As ,i16	float 
+@lengthOf(	falsey
+
+    // " ++ [27880; 37322]%N ++ runes_of_ascii "
+    	)
+
+`a\`,  int64
+msg_type
+`tab	here`, @tag( 0
+// `tick` ""quote"" 'q'
+) repeat uint8x
+, @lengthOf( 
+x
+	)  repeat  metadata
+
+    ,
+	zchar[
+
+0  ] int 
+,uint64 
+zchar,
+
+    zchar[7// " ++ [27880; 37322]%N ++ runes_of_ascii "
+    	]  msg_type
+
+    ,  @calculatedFrom( 
+/// triple
+  // " ++ [27880; 37322]%N ++ runes_of_ascii "
+
+""" ++ [28040; 24687]%N ++ runes_of_ascii """ 
+)
+	crc , } root 
+packet 
+zchar 
+{	repeat leftPad  ,}packet
+	A {@lengthOf(string_
+
+)
+    x
+	@lengthOf(	options1 )`two words`, 
+string	len ,
+	}
+packet 
+falsey{ i64_
+    @calculatedFrom( ""{,}""
+)
+
+    ,
+
+repeat  string  chars ,
+	zchar[
+
+    7]
+
+    calculatedFrom, 
+Header  {	char
+
+    u `two words`
+,
+repeat
+char[]// c
+  	tag `say ""hi""` ,	Z9_@lengthOf(T )  `line1
+line2` ,} ,
+    msg_type
+	@calculatedFrom( ""// no comment""
+
+)
+
+,
+
+    @rightPad	( 	 // packet A { u8 x, }
+		'\x00')
+
+@lengthOf(asx
+)
+    falsey ,
+    }  // packet A { u8 x, }")).
+Eval vm_compute in ("<<<M8>>>" ++ check (runes_of_ascii "// @lengthOf(
+packet Pad { zchar[
+    0 ]Header @calculatedFrom(
+""a	b"" ) // " ++ [27880; 37322]%N ++ runes_of_ascii "
+`say ""hi""` , @calculatedFrom(
+    ""a\""b"" // a // b
+)  body @lengthOf( body// `tick` ""quote"" 'q'
+)`say ""hi""` , u16 stringy@lengthOf(
+    // trailing space 
+    trueish ) , @lengthOf( rootA) f64 Foo `say ""hi""` // c
+,u16 Z9_ , x_y_z , }
+    MetaData metadata { uint64 x , trueish chars//
+,
+    asx lengthOf `u8 x,`  ,
+} options { body // a // b
+=	""packet"" } root
+    packet MetaDataX {zchar[
+42	]
+a1
+,Packet x_y_z // " ++ [27880; 37322]%N ++ runes_of_ascii "
+, u8 Foo
+    `u8 x,` , u64
+//	t
+/// triple
+tag, @tag( 1 //x
+)  string x_y_z @calculatedFrom( ""x y"" ) ,f32 Logon	, _x ,charz // a // b
+{
+    rootA metadata `crlf
+line`
+    , Header @calculatedFrom( ""\" ++ [233]%N ++ runes_of_ascii """ ) `` ,
+i64_`line1
+line2`
+    // @lengthOf(
+    , } ,@lengthOf(
+a1// `tick` ""quote"" 'q'
+) string
+As	`doc`
+    , @tag(
+1 ) match As
+    as	trueish
+    //	t
+    {
+    [ ""`tick`""
+    // trailing space 
+    ] :charz,  ""packet"": asx , 42  :
+packetx, [ ""a\\"" ] :
+u }
+,
+}
+/// triple
+")).
+Eval vm_compute in ("<<<M221>>>" ++ check (runes_of_ascii "packet u128
+{ @rightPad (
+' ' )
+i64_ { Logon ,char[ 4294967296
+    // @lengthOf(
+    ] MetaDataX@calculatedFrom( """ ++ [28040; 24687]%N ++ runes_of_ascii """ ) , } // " ++ [27880; 37322]%N ++ runes_of_ascii "
+,	rootA{ zchar[
+    // " ++ [128512]%N ++ runes_of_ascii " emoji
+    1 // a // b
+]rootA ,
+asx { rootA @calculatedFrom( ""abc""  ), repeat uint16 x_y_z
+,
+    // packet A { u8 x, }
+    zchar[
+42
+    ] stringy ,body , }, }, @leftPad
+( '\x00' ) char[ 3]Z9_ @lengthOf(  roots )
+    // trailing space 
+    `" ++ [233]%N ++ runes_of_ascii "`	, @lengthOf( charz	) @leftPad ( '0')@calculatedFrom(  ""a\""b"" )
+    zchar[//	t
+7 ]
+    // @lengthOf(
+    a1 @calculatedFrom( ""\" ++ [233]%N ++ runes_of_ascii """
+) //
+`// not a comment` ,
+@lengthOf( lengthOf ) repeat
+i16
+chars
+,int
+{
+    //	t
+    zchar[
+    1 ] calculatedFrom`line1
+line2`,Packet `" ++ [28040; 24687; 31867; 22411]%N ++ runes_of_ascii "` , } ,// " ++ [128512]%N ++ runes_of_ascii " emoji
+@rightPad ( '\x00'  )
+    zchar[255 // `tick` ""quote"" 'q'
+]
+    repeatCount @calculatedFrom(""\" ++ [233]%N ++ runes_of_ascii """ ) , repeat
+    char[] Pad
+`a\` ,  @lengthOf( pack )	i8 int , }")).
+Eval vm_compute in ("<<<M209>>>" ++ check (runes_of_ascii "packet calculatedFrom { // a // b
+string charz
+`two words`
+//	t
+//x
+, } packet stringy {
+@lengthOf(msg_type
+)	crc
+    // " ++ [128512]%N ++ runes_of_ascii " emoji
+    , @leftPad
+(	'0')crc @lengthOf(
+u128 //	t
+) ,@leftPad(
+    ' '
+)match
+x_y_z as
+rootA { [// @lengthOf(
+3 ,255 ] : int
+    ""1"": o ,// a // b
+10:tag
+, // c
+10// " ++ [128512]%N ++ runes_of_ascii " emoji
+: Header
+    ,3 :
+a1,""" ++ [128512]%N ++ runes_of_ascii """ :
+packetx
+    , }
+// packet A { u8 x, }
+// packet A { u8 x, }
+, match
+// " ++ [27880; 37322]%N ++ runes_of_ascii "
+// a // b
+o as x//x
+{  ""a	b"" : u8x ,} ,  @rightPad () repeat
+u packetx
+,
+    T // " ++ [27880; 37322]%N ++ runes_of_ascii "
+,repeat
+Logon ,	T{repeat
+x_y_z , // a // b
+i8 crc
+`two words` ,
+char[] calculatedFrom
+    @calculatedFrom(""x y""
+) , } , roots calculatedFrom,
+@lengthOf(
+asx)  repeat x_y_z{ T
+matchKey, } , }
+options { float
+=char[1 ]
+    ;
+    msg_type // c
+=i8 x =
+//
+// `tick` ""quote"" 'q'
+zchar[ 7] ; f32a =""\n""}
+")).
+Eval vm_compute in ("<<<M369>>>" ++ check (runes_of_ascii "root
+packet leftPad { @calculatedFrom( """ ++ [128512]%N ++ runes_of_ascii """) int64 len
+`{ , }` , } packet
+    u128
+    { zchar[ 65535 ] chars @calculatedFrom( ""\" ++ [233]%N ++ runes_of_ascii """
+    ), @lengthOf(  int
+// packet A { u8 x, }
+// @lengthOf(
+) i64_ , crc { match	Z9_ as Logon
+    {
+10 : int ,
+[ 0 ]
+: u8x ,
+// trailing space 
+//x
+42 :
+    trueish , [ ""\" ++ [233]%N ++ runes_of_ascii """ , 4294967296
+    ]
+:Z9_
+    ""\n""	: u128 ,	} ,
+    repeat string_ uint8x, i8i8 , match u as body
+{ 4294967296:
+// " ++ [27880; 37322]%N ++ runes_of_ascii "
+/// triple
+Z9_, 10
+:	Z9_,
+[ """ ++ [128512]%N ++ runes_of_ascii """
+    ,
+    ""x y"" ]
+: pack ,
+    } , }
+, @tag( // " ++ [128512]%N ++ runes_of_ascii " emoji
+0123456789 )
+    @lengthOf( calculatedFrom) @leftPad ( '\x00' // c
+) zchar[ 3 ]
+    T ,
+match A  as
+    leftPad{ [ """ ++ [28040; 24687]%N ++ runes_of_ascii """ ] :i64_""// no comment"" :
+    string_
+    ,
+} , } // trailing space ")).
+Eval vm_compute in ("<<<M1521>>>" ++ check (runes_of_ascii "packet stringy {
+    repeat T {
+        u64 lengthOf `tab	here`,
+        repeat _x {
+            match calculatedFrom as Header {
+                [""" ++ [233]%N ++ runes_of_ascii "t" ++ [233]%N ++ runes_of_ascii """] : _x,
+                // @lengthOf(
+                [""packet""] : MetaDataX,
+                255 : u128,
+                42 : A,
+                ""// no comment"" : body,
+            },
+            repeat crc Foo,
+            charz,
+        },
+        zchar[1] i8i8 @calculatedFrom(""x y""),
+        uint8x Pad `line1
+        line2`,
+    },
+    @lengthOf(u)
+    char[4294967296] crc,
+    @tag(007)
+    repeatCount,
+    repeat char[] Header,
+    @rightPad()
+    char[] string_ `a\`,
+}")).
+Eval vm_compute in ("<<<M113>>>" ++ check (runes_of_ascii "options	{
+As
+= // packet A { u8 x, }
+' '}MetaData o{} root packet pack
+{ } packet tag // " ++ [128512]%N ++ runes_of_ascii " emoji
+{ match falsey as
+BodyLength	{ 4294967296
+:
+    lengthOf
 // c
 // " ++ [27880; 37322]%N ++ runes_of_ascii "
-`a\` ,
-}
-,@lengthOf(
-    u8x)string_, repeat
-// " ++ [128512]%N ++ runes_of_ascii " emoji
+,[ ""x y""
+,""a\\""
+    ]
+    : rootA , [
+42 , ""a	b"" ,
+    ""CRC32"" , 65535 ,""abc"" , 007 ]
+:
+u8x	""x y"" : A ,
+    /// triple
+    65535 :  i64_,
+    0123456789 :
+    Packet }
+    , @lengthOf(  msg_type)	pack msg_type,
+    @tag( 0 )@lengthOf( Packet
+)/// triple
+@tag(
+3 )
 //	t
-x
+// " ++ [128512]%N ++ runes_of_ascii " emoji
+Foo , repeat float64 zchar, @calculatedFrom(
+""a\""b""
+) @lengthOf(A )@lengthOf( roots
+) options1 @lengthOf(
+Z9_ ),char[] T ,  }")).
+Eval vm_compute in ("<<<M40>>>" ++ check (runes_of_ascii "packet stringy
+//	t
+//
+{ repeat T// trailing space 
+{ u64 lengthOf
+`tab	here`  ,
+repeat
+_x { match calculatedFrom as Header { [""" ++ [233]%N ++ runes_of_ascii "t" ++ [233]%N ++ runes_of_ascii """
+    ] : _x  ,// @lengthOf(
+[""packet"" ] :
+MetaDataX , 255 : u128,42 :
+A
+""// no comment"" : body
     , }
+, repeat crc Foo, charz
+    ,
+}	,zchar[ 1
+    ]i8i8@calculatedFrom( ""x y"" ),  uint8x
+    // " ++ [27880; 37322]%N ++ runes_of_ascii "
+    Pad
+`line1
+line2` , } ,
+@lengthOf( u )
+char[ //x
+4294967296 ]crc, @tag(  007 //x
+)repeatCount ,
+repeat
+    //x
+    char[] Header, @rightPad ( )char[] string_ `a\` ,
+    }
 ")).
-Eval vm_compute in ("<<<M1668>>>" ++ check (runes_of_ascii "packet tag {
-    string matchKey `line1
-        line2`,
-    @tag(0)
-    // c
-    @calculatedFrom(""1"")
-    @calculatedFrom(""a\""b"")
-    float64 matchKey,
+Eval vm_compute in ("<<<M1703>>>" ++ check (runes_of_ascii "MetaData falsey {
 }
 
-options {
-    crc = true
-    msg_type = true;
+root packet o {
+    @tag(3)
+    @calculatedFrom("""")
+    @lengthOf(pack)
+    char[65535] falsey @lengthOf(falsey),
+}
+
+root packet roots {
+    @lengthOf(chars)
+    match Logon as chars {
+        ""`tick`"" : charz,
+        // packet A { u8 x, }
+        ""a\\"" : Z9_,
+        007 : trueish,
+        ""CRC32"" : msg_type,
+        [
+            3, 3, 00, 4294967296, 0,
+            7, ""x y"", ""\" ++ [233]%N ++ runes_of_ascii """
+        ] : metadata,
+        ""a	b"" : crc,
+    },
+}")).
+Eval vm_compute in ("<<<M1631>>>" ++ check (runes_of_ascii "packet Frame {
+    u8 HK,
+    u8 BK,
+    u8 TK,
+    match HK as Hdr {
+        1 : HdrA,
+        2 : HdrB,
+    },
+    match BK as Body {
+        1 : BodyA,
+        2 : BodyB,
+    },
+    match TK as Trl {
+        1 : TrlA,
+    },
+}
+
+packet HdrA {
+    u8 a,
+}
+
+packet HdrB {
+    u16 b,
+}
+
+packet BodyA {
+    u32 c,
+}
+
+packet BodyB {
+    u64 d,
+}
+
+packet TrlA {
+    u8 e,
+}
+
+root packet Msg {
+    Frame,
+    u8 x,
+}")).
+Eval vm_compute in ("<<<M1259>>>" ++ check (runes_of_ascii "// top
+packet // c0
+B // c1a
+  // c1b
+{ // c2
+u8 // c3a
+  // c3b
+a // c4
+, } // c6
+root // c7a
+  // c7b
+packet // c8a
+  // c8b
+P { // c10
+u8
+    // c11
+K , // c13
+u8 // c14a
+  // c14b
+L // c15a
+  // c15b
+@lengthOf( // c16a
+  // c16b
+Body )
+    // c18
+, match // c20
+K as // c22a
+  // c22b
+Body
+    // c23
+{ 1 :
+    // c26
+B // c27
+, }
+    // c29
+,
+    // c30
+}
+    // c31
+")).
+Eval vm_compute in ("<<<M1668>>>" ++ check (runes_of_ascii "  root
+    packet o
+{ }
+
+MetaData
+
+uint8x
+{int64 rootA,  }  MetaData
+As {i32 	 // packet A { u8 x, }
+	chars
+
+, }
+	packet Z9_ 	 // trailing space 
+	{ @leftPad
+
+    (
+
+)	char[]
+
+x_y_z ,
+	}  packet tag { @leftPad
+	(
+
+// " ++ [128512]%N ++ runes_of_ascii " emoji
+    // " ++ [27880; 37322]%N ++ runes_of_ascii "
+  	' ')zchar[
+0// `tick` ""quote"" 'q'
+  	]rootA
+@calculatedFrom( 
+""a\\""
+
+    )
+`tab	here`
+
+    ,
+}
+")).
+Eval vm_compute in ("<<<M1191>>>" ++ check (runes_of_ascii "// top
+MetaData // c0
+uint8x // c1
+{ // c2
+char[] // c3
+f32a // c4
+`// not a comment` // c5
+, // c6
+float32 // c7
+roots // c8
+, // c9
+char[ // c10
+7 // c11
+] // c12
+u8x // c13
+, // c14
+zchar[ // c15
+10 // c16
+] // c17
+f32a // c18
+, // c19
+u64 // c20
+pack // c21
+, // c22
+u16 // c23
+pack // c24
+, // c25
+} // c26
+")).
+Eval vm_compute in ("<<<M1525>>>" ++ check (runes_of_ascii "MetaData T {
+    uint8 float,
+    repeatCount x,
+    char[10] asx,
+    char[00] metadata `" ++ [233]%N ++ runes_of_ascii "`,
+    u8x asx,
+}
+
+MetaData trueish {
+    charz string_ `crlf
+    line`,
+    zchar[42] _x,
 }
 
 packet o {
-    match roots as calculatedFrom {
-        ""// no comment"" : msg_type,
-        ""{,}"" : u128,
-        [65535, 0123456789] : body,
-        // " ++ [128512]%N ++ runes_of_ascii " emoji
-    },
+    char[] u8x @calculatedFrom(""abc""),
+}
+
+options {
+    x = 255;
+    u = '0'
+}")).
+Eval vm_compute in ("<<<M1590>>>" ++ check (runes_of_ascii "root packet i8i8 {
+    @tag(4294967296)
+    // packet A { u8 x, }
+    Header calculatedFrom `
+        `,
+    @tag(4294967296)
     @rightPad(' ')
-    repeat string_ i64_,
-    @lengthOf(lengthOf)
-    @tag(255)
-    @tag(00)
-    char[] stringy,
-}")).
-Eval vm_compute in ("<<<M1874>>>" ++ check (runes_of_ascii "options {
-    rootA = 4294967296;
-    falsey = ""a\""b"";
-    As = """";
-    packetx = ""packet""
-    i8i8 = true;
-}// `tick` ""quote"" 'q'
+    @lengthOf(float)
+    options1 zchar `" ++ [233]%N ++ runes_of_ascii "`,
+}
 
-packet x {
-    repeat zchar rootA,
-    char[] pack `// not a comment`,
-    @tag(00)
-    @tag(0123456789)
-    u @calculatedFrom(""packet"") `u8 x,`,
-    Header {
-        zchar[00] body,
-        a1 @calculatedFrom(""it's"") `" ++ [233]%N ++ runes_of_ascii "`,
+root packet x {
+    repeat zchar[10] x `u8 x,`,
+}")).
+Eval vm_compute in ("<<<M273>>>" ++ check (runes_of_ascii "root packet string_ { @leftPad (
+    ' ' )  chars { repeat
+zchar[ 0
+]  tag ,string falsey,// " ++ [128512]%N ++ runes_of_ascii " emoji
+repeat  char[ 007] body  `two words`
+    , } , @calculatedFrom(
+""// no comment"" ) Foo T
+    , // " ++ [128512]%N ++ runes_of_ascii " emoji
+}
+")).
+Eval vm_compute in ("<<<M1586>>>" ++ check (runes_of_ascii "packet u128 {
+    u8 a,
+}
+
+root packet Msg {
+    u8 k,
+    u24 {
+        u8 Hi,
+        u16 Lo,
     },
-}// " ++ [27880; 37322]%N ++ runes_of_ascii "
-
-MetaData A {
-    zchar matchKey ``,
-    int64 metadata,
-    char[] _x,
-}")).
-Eval vm_compute in ("<<<M1757>>>" ++ check (runes_of_ascii "options {
-    LittleEndian = false;
-    StringPrefixLenType = u8;
-    ArrayPrefixLenType = u64;
-    FixedStringPadFromLeft = false;
-    FixedStringPadChar = ' ';
-}
-
-packet Reject {
-    repeat char[4] seqNo,
-    string Px,
-}
-
-root packet Trade {
-    @rightPad('0')
-    char[2] msgKind,
-    repeat f64 price,
-    InAcct79 {
-        repeat Reject,
-        zchar[7] OrderId,
+    repeat i24 {
+        u32 q,
     },
-    Reject,
+    u128,
+    u16 float32x,
+    string s,
 }")).
-Eval vm_compute in ("<<<M299>>>" ++ check (runes_of_ascii "// packet A { u8 x, }
-MetaData roots{ char[ 00]lengthOf
-``  , As stringy, x	calculatedFrom ,} packet i8i8	{
-crc `crlf
-line` , @rightPad// a // b
-( )zchar[ 42] falsey // trailing space 
-,
-    /// triple
-    @tag( 42 ) u32	leftPad  , @tag( 42 ) a1@lengthOf( Z9_ ) , match leftPad as crc{ [""a\""b"" , 1
-, 255
-]:	trueish ,3
-: float ,
-0 :lengthOf
+Eval vm_compute in ("<<<M1856>>>" ++ check (runes_of_ascii "  MetaData leftPad {
+
+chars	MetaDataX
+
     ,
-} ,}")).
-Eval vm_compute in ("<<<M79>>>" ++ check (runes_of_ascii "packet	Pad //
-{ u32 i64_
-@lengthOf(u8x) `tab	here` , T,
-@tag(
-1) @calculatedFrom(	""CRC32""
-)
-    @leftPad ()
-    match stringy as lengthOf	{[ 255  ,	7
-    ,
-""CRC32""
-,""a	b"" , """ ++ [233]%N ++ runes_of_ascii "t" ++ [233]%N ++ runes_of_ascii """ ,// c
-""a\""b""
-    , ""\n"" ]: falsey  , /// triple
-} ,string i8i8// trailing space 
-@calculatedFrom( """ ++ [128512]%N ++ runes_of_ascii """
-    ) ,packetx, } // c")).
-Eval vm_compute in ("<<<M1946>>>" ++ check (runes_of_ascii "options {
-    A = i16;
+
+    }  packet	repeatCount{char[
+
+    255
+	]
+
+    uint8x `" ++ [233]%N ++ runes_of_ascii "`, }
+
+MetaData
+	pack
+	{
+As
+    Foo , 
+        // c
 }
 
-/// triple
-root packet rootA {
-    @tag(7)
-    int16 pack,
-    Logon @calculatedFrom(""a\""b"") `{ , }`,
-    @rightPad('\x00')
-    //
-    //
-    char[7] options1 `tab	here`,
-    @calculatedFrom(""" ++ [233]%N ++ runes_of_ascii "t" ++ [233]%N ++ runes_of_ascii """)
-    int @lengthOf(Packet) `crlf
-        line`,
-}")).
-Eval vm_compute in ("<<<M1864>>>" ++ check (runes_of_ascii "packet Header {
-    @calculatedFrom(""a	b"")
-    char[255] falsey `tab	here`,
-    int8 u `doc`,
-    float32 lengthOf @calculatedFrom(""a	b""),
-    @rightPad(' ')
-    @tag(3)
-    float64 asx,
-    int8 metadata @lengthOf(zchar),
-    Pad f32a,
-}")).
-Eval vm_compute in ("<<<M18>>>" ++ check (runes_of_ascii "packet roots
-// a // b
-// " ++ [128512]%N ++ runes_of_ascii " emoji
-{ // " ++ [27880; 37322]%N ++ runes_of_ascii "
-@tag(0
-)
-    repeat // `tick` ""quote"" 'q'
-zchar[
-/// triple
-//x
-0
-]x , } options { As =""\" ++ [233]%N ++ runes_of_ascii """ ;pack = ' ' ; int = // `tick` ""quote"" 'q'
-'\x00' ; options1 =
-""`tick`"" ; }")).
-Eval vm_compute in ("<<<M121>>>" ++ check (runes_of_ascii "packet u128 { @calculatedFrom(  ""a	b"" ) // packet A { u8 x, }
-@leftPad( ' '
-) //	t
-@lengthOf(
-Header // packet A { u8 x, }
-) char[10
-    ] crc@lengthOf(
-len ) , } MetaData i8i8 { }
 ")).
-Eval vm_compute in ("<<<M152>>>" ++ check (runes_of_ascii "packet T {
-int u ,
-@calculatedFrom( ""\" ++ [233]%N ++ runes_of_ascii """ ) // `tick` ""quote"" 'q'
-repeat// @lengthOf(
-string	x_y_z// a // b
-,
-uint32// `tick` ""quote"" 'q'
-int `crlf
-line` , }
-")).
-Eval vm_compute in ("<<<M521>>>" ++ check (runes_of_ascii "packet uint8x
+Eval vm_compute in ("<<<M418>>>" ++ check (runes_of_ascii "packet uint8x
 { match pack
-    as msg_type	{
-    0123456789 :	float
-}
-,
-} packet //	t
-a1
-    { } options {packetx
-    = '\x00'	; u128= ""a	b"" ""a	b""  ; }
-")).
-Eval vm_compute in ("<<<M426>>>" ++ check (runes_of_ascii "packet uint8x
-{ match pack
-    as msg_type	{ {
+    @rightPad msg_type	{
     0123456789 :	float
 }
 ,
@@ -907,22 +795,44 @@ a1
     { } options {packetx
     = '\x00'	; u128= ""a	b""  ; }
 ")).
-Eval vm_compute in ("<<<M1299>>>" ++ check (runes_of_ascii "packet A {
-    u8 a,
+Eval vm_compute in ("<<<M1272>>>" ++ check (runes_of_ascii "
+options{
+LittleEndian=
+
+true; } packet
+	B	{
+u8 a
+
+    ,
+string  s, 
+}	root
+
+packet
+
+P
+
+{ u16
+    L
+    @lengthOf(
+
+    B
+)
+,
+B,
+    u8
+t ,  }")).
+Eval vm_compute in ("<<<M545>>>" ++ check (runes_of_ascii "packet uint8x
+{ match' pack
+    as msg_type	{
+    0123456789 :	float
 }
-packet B {
-    u16 b,
-}
-root packet P {
-    u8 K,
-    match K as M {
-        [1, 2] : A,
-        3 : B,
-        7 : A,
-    },
-}
+,
+} packet //	t
+a1
+    { } options {packetx
+    = '\x00'	; u128= ""a	b""  ; }
 ")).
-Eval vm_compute in ("<<<M517>>>" ++ check (runes_of_ascii "packet uint8x
+Eval vm_compute in ("<<<M498>>>" ++ check (runes_of_ascii "packet uint8x
 { match pack
     as msg_type	{
     0123456789 :	float
@@ -931,74 +841,85 @@ Eval vm_compute in ("<<<M517>>>" ++ check (runes_of_ascii "packet uint8x
 } packet //	t
 a1
     { } options {packetx
-    = '\x00'	; u128""a	b"" =  ; }
+    ; '\x00'	; u128= ""a	b""  ; }
 ")).
-Eval vm_compute in ("<<<M666>>>" ++ check (runes_of_ascii "// @lengthOf(
-packet i8i8 { u128 u128 o , }
-options { MetaDataX = true;
-    BodyLength =""packet"" x_y_z= 007
-crc //x
-= ""abc"" ;
-    msg_type =
-i16 }")).
-Eval vm_compute in ("<<<M691>>>" ++ check (runes_of_ascii "// @lengthOf(
-packet i8i8 { u128 o , }
-options f64 MetaDataX = true;
-    BodyLength =""packet"" x_y_z= 007
-crc //x
-= ""abc"" ;
-    msg_type =
-i16 }")).
-Eval vm_compute in ("<<<M707>>>" ++ check (runes_of_ascii "// @lengthOf(
-packet i8i8 { u128 o , }
-options { MetaDataX = true;
-    BodyLength =MetaData x_y_z= 007
-crc //x
-= ""abc"" ;
-    msg_type =
-i16 }")).
-Eval vm_compute in ("<<<M1772>>>" ++ check (runes_of_ascii "packet A {
-    match k as n {
-        [
-            1, ""bb"", 007, ""d"", 5,
-            ""f"", 7, ""h"", 9
-        ] : B,
-        2 : C,
-    },
-}")).
-Eval vm_compute in ("<<<M1490>>>" ++ check (runes_of_ascii "
-options {  LittleEndian  =
-true ;
+Eval vm_compute in ("<<<M415>>>" ++ check (runes_of_ascii "packet uint8x
+{ match pack
+     msg_type	{
+    0123456789 :	float
 }
-	root
-packet P
-
-    {
-
-    u16 
-a ,
-
-    u32
-    Sum
-@calculatedFrom(
-""CR\
-C32"" 
-)
-,  }
+,
+} packet //	t
+a1
+    { } options {packetx
+    = '\x00'	; u128= ""a	b""  ; }
 ")).
-Eval vm_compute in ("<<<M223>>>" ++ check (runes_of_ascii "packet  u { repeat
-    // " ++ [128512]%N ++ runes_of_ascii " emoji
-    A , @lengthOf( lengthOf
-)
-    repeat
-    i64
-i64_
-, //
-zchar[
-3// a // b
-] body , }
+Eval vm_compute in ("<<<M678>>>" ++ check (runes_of_ascii "// @lengthOf(
+packet i8i8 { u128 o , }
+options { MetaDataX = true;
+    BodyLength =""packet"" x_y_z= 007
+crc //x
+= ""abc"" ;
+    < msg_type =
+i16 }")).
+Eval vm_compute in ("<<<M685>>>" ++ check (runes_of_ascii "// @lengthOf(
+packet i8i8 { u128 o , }
+options { MetaDataX = true;
+    BodyLength =""packet"" x_y_z= 007
+crc //x
+= ""abc"" ;
+    = msg_type
+i16 }")).
+Eval vm_compute in ("<<<M1606>>>" ++ check (runes_of_ascii "packet
+	A {  match k	as
+
+    n 
+{ 
+[ 1
+    ,
+22 
+,""c c""
+	,4
+,5 ,	""f""  ,7
+
+    ,	8 
+,
+
+""i"", 10,
+
+    11  ]  :	B,
+2 
+: C  },
+    }
 ")).
-Eval vm_compute in ("<<<M970>>>" ++ check (runes_of_ascii "packet A {
+Eval vm_compute in ("<<<M37>>>" ++ check (runes_of_ascii "//
+root /// triple
+packet // trailing space 
+pack {
+@leftPad(
+    ' ' )
+    repeat trueish zchar ,	} root
+    packet // " ++ [27880; 37322]%N ++ runes_of_ascii "
+Header { }")).
+Eval vm_compute in ("<<<M1593>>>" ++ check (runes_of_ascii "// c
+MetaData leftPad {
+    chars MetaDataX,
+}
+
+packet repeatCount {
+    char[255] uint8x `" ++ [233]%N ++ runes_of_ascii "`,
+}
+
+MetaData pack {
+    As Foo,
+}")).
+Eval vm_compute in ("<<<M1190>>>" ++ check (runes_of_ascii "MetaData leftPad { chars MetaDataX , } packet repeatCount { char[ 255 ] uint8x `" ++ [233]%N ++ runes_of_ascii "` , } MetaData pack { As Foo , }
+// c
+")).
+Eval vm_compute in ("<<<M1168>>>" ++ check (runes_of_ascii "MetaData leftPad { chars MetaDataX , } packet repeatCount { char[ 255 ]
+// c
+uint8x `" ++ [233]%N ++ runes_of_ascii "` , } MetaData pack { As Foo , }")).
+Eval vm_compute in ("<<<M967>>>" ++ check (runes_of_ascii "packet A {
     match k as n {
         ""x\
 y"" : B,
@@ -1008,156 +929,190 @@ y"", 1] : C,
 y""] : D,
     },
 }")).
-Eval vm_compute in ("<<<M1173>>>" ++ check (runes_of_ascii "MetaData leftPad { chars MetaDataX , } packet repeatCount { char[ 255 ] uint8x `" ++ [233]%N ++ runes_of_ascii "` , // c
-} MetaData pack { As Foo , }")).
-Eval vm_compute in ("<<<M1319>>>" ++ check (runes_of_ascii "
-packet FooBar  {  u8
-	a , }
-    packet  foo_bar
+Eval vm_compute in ("<<<M1418>>>" ++ check (runes_of_ascii "options
 
-    {  u16 
-b
+    {
 
-    , } root
-	packet R{FooBar , foo_bar
-,	}
+    FixedStringPadFromLeft =true
+; } root
+    packet
+    P
+	{ char[
+	4
+
+    ]z
+
+,  }
 ")).
-Eval vm_compute in ("<<<M489>>>" ++ check (runes_of_ascii "packet uint8x
-{ match pack
-    as msg_type	{
-    0123456789 :	float
-}
-,
-} packet //	t
-a1
-    { } options")).
-Eval vm_compute in ("<<<M683>>>" ++ check (runes_of_ascii "// @lengthOf(
-packet i8i8 { u128 o , }
-options { MetaDataX = true;
-    BodyLength =""packet"" x_y_z= 007")).
-Eval vm_compute in ("<<<M479>>>" ++ check (runes_of_ascii "packet uint8x
-{ match pack
-    as msg_type	{
-    0123456789 :	float
-}
-,
-} packet //	t
-a1
-    {")).
-Eval vm_compute in ("<<<M872>>>" ++ check (runes_of_ascii "packet A {
+Eval vm_compute in ("<<<M944>>>" ++ check (runes_of_ascii "packet A {
+    Inner {
+        u8 x `a
+
+b`,
+        Deep {
+            u8 y `a
+
+b`,
+        },
+    },
+}")).
+Eval vm_compute in ("<<<M885>>>" ++ check (runes_of_ascii "packet A {
   match k as n {
-    [""a"", 22, ""c c"", 4, ""e"", 66, ""g"", 8, ""i""] : B
+    [""a"", 22, ""c c"", 4, ""e"", 66, ""g"", 8, ""i"", 10] : B
     2 : C
   },
 }")).
-Eval vm_compute in ("<<<M613>>>" ++ check (runes_of_ascii "
+Eval vm_compute in ("<<<M605>>>" ++ check (runes_of_ascii "
+packet
+    asx {match u128 as lengthOf
+{
+//	t
+// `tick` ""quote"" 'q'
+255 : repeat ,
+    } ,	}")).
+Eval vm_compute in ("<<<M563>>>" ++ check (runes_of_ascii "
+packet
+    asx { {match u128 as lengthOf
+{
+//	t
+// `tick` ""quote"" 'q'
+255 : x ,
+    } ,	}")).
+Eval vm_compute in ("<<<M1530>>>" ++ check (runes_of_ascii "packet A {
+    match k as n {
+        [""a"", ""bb"", ""c c"", ""d""] : B,
+        2 : C,
+    },
+}")).
+Eval vm_compute in ("<<<M617>>>" ++ check (runes_of_ascii "
 packet
     asx {match u128 as lengthOf
 {
 //	t
 // `tick` ""quote"" 'q'
 255 : x ,
-    } } ,	}")).
-Eval vm_compute in ("<<<M584>>>" ++ check (runes_of_ascii "
+    } 	}")).
+Eval vm_compute in ("<<<M1275>>>" ++ check (runes_of_ascii "
+
+  options{ FixedStringPadFromLeft
+= 
+true 
+; }root 
+packet  P {char[
+    4 ]
+z,
+	}")).
+Eval vm_compute in ("<<<M830>>>" ++ check (runes_of_ascii "packet A {
+  match k as n {
+    [1, ""bb"", 007, ""d"", 5, ""f""] : B,
+    2 : C
+  },
+}")).
+Eval vm_compute in ("<<<M1251>>>" ++ check (runes_of_ascii "packet
+Inner
+	{u8	a 
+,
+} root
+	packet 
+P
+{ Inner	ref_obj,  u8	x
+,
+
+    }
+
+")).
+Eval vm_compute in ("<<<M601>>>" ++ check (runes_of_ascii "
 packet
-    asx {match u128 as {
-lengthOf
+    asx {match u128 as lengthOf
+{
 //	t
 // `tick` ""quote"" 'q'
-255 : x ,
-    } ,	}")).
-Eval vm_compute in ("<<<M845>>>" ++ check (runes_of_ascii "packet A {
-  match k as n {
-    [""a"", 22, ""c c"", 4, ""e"", 66, ""g""] : B,
-    2 : C
-  },
+255")).
+Eval vm_compute in ("<<<M1422>>>" ++ check (runes_of_ascii "packet	A
+    {match
+
+    k
+as	n {	[  ""a""]  :	B ,
+2  : C}
+    ,
+
+} ")).
+Eval vm_compute in ("<<<M1127>>>" ++ check (runes_of_ascii "// top
+MetaData
+    // c0
+u
+    // c1
+{ // c2a
+  // c2b
+} // c3
+")).
+Eval vm_compute in ("<<<M954>>>" ++ check (runes_of_ascii "packet A {
+    B b `
+x`,
+    B `
+x`,
+    repeat B bs `
+x`,
 }")).
-Eval vm_compute in ("<<<M1439>>>" ++ check (runes_of_ascii "// top
-root packet P {
-    // c3
-    char c,// c6a
-    // c6b
-    u8 x,// c9
-}// c10")).
-Eval vm_compute in ("<<<M1094>>>" ++ check (runes_of_ascii "packet A { u16 // a
- len // b
- @lengthOf( // c
- body // d
- ) // e
- `d` // f
- , }")).
-Eval vm_compute in ("<<<M1939>>>" ++ check (runes_of_ascii "  root
-	packet
+Eval vm_compute in ("<<<M1408>>>" ++ check (runes_of_ascii "
+root 
+packet
 
-P{ 
-u8
+    A	{	u8
 
-    s_u8 
-, 
-repeat
-    u8
+    x `a
+    b
+  c` ,}
 
-r_u8
-,	u16
-
-b_len
-	,} ")).
-Eval vm_compute in ("<<<M1630>>>" ++ check (runes_of_ascii "packet A {
-    B b `x
-    `,
-    B `x
-    `,
-    repeat B bs `x
-    `,
-}")).
-Eval vm_compute in ("<<<M768>>>" ++ check (runes_of_ascii "char = char[] options char[] ] uint64 metadata match 1 zchar[ int16")).
-Eval vm_compute in ("<<<M444>>>" ++ check (runes_of_ascii "packet uint8x
-{ match pack
-    as msg_type	{
-    0123456789 :")).
-Eval vm_compute in ("<<<M776>>>" ++ check (runes_of_ascii "packet A {
-  match k as n {
-    [""a""] : B
-    2 : C
-  },
-}")).
-Eval vm_compute in ("<<<M786>>>" ++ check (runes_of_ascii "packet A { Inner { match k as n { [1,22] : B, }, }, }")).
-Eval vm_compute in ("<<<M1218>>>" ++ check (runes_of_ascii "packet body { i32 f32a `{ , }` , } options {
+")).
+Eval vm_compute in ("<<<M1208>>>" ++ check (runes_of_ascii "packet body { i32 f32a
 // c
+`{ , }` , } options { }")).
+Eval vm_compute in ("<<<M945>>>" ++ check (runes_of_ascii "MetaData M {
+    u8 x `a
+
+b`,
+    T t `a
+
+b`,
 }")).
-Eval vm_compute in ("<<<M693>>>" ++ check (runes_of_ascii "// @lengthOf(
-packet i8i8 { u128 o , }
-options")).
-Eval vm_compute in ("<<<M1223>>>" ++ check (runes_of_ascii "// top
-packet // c0
-x { // c2
+Eval vm_compute in ("<<<M1573>>>" ++ check (runes_of_ascii "root packet A {
+    u8 x `a
+        b`,
+}")).
+Eval vm_compute in ("<<<M935>>>" ++ check (runes_of_ascii "packet A {
+    u8 x `a
+    b
+  c`,
+}")).
+Eval vm_compute in ("<<<M922>>>" ++ check (runes_of_ascii "root packet A {
+    u8 x `a
+b`,
+}")).
+Eval vm_compute in ("<<<M586>>>" ++ check (runes_of_ascii "
+packet
+    asx {match u128 as")).
+Eval vm_compute in ("<<<M757>>>" ++ check (runes_of_ascii "z>" ++ [65533]%N ++ runes_of_ascii "*" ++ [65533]%N ++ runes_of_ascii "7" ++ [65533; 65533; 65533; 65533]%N ++ runes_of_ascii "+" ++ [65533]%N ++ runes_of_ascii "~" ++ [65533; 0; 65533; 65533]%N ++ runes_of_ascii "c" ++ [1171]%N ++ runes_of_ascii "n" ++ [65533; 65533; 65533; 12; 65533]%N ++ runes_of_ascii "E>K")).
+Eval vm_compute in ("<<<M1669>>>" ++ check (runes_of_ascii "MetaData
+	u
+{
+
+} 
+  // c")).
+Eval vm_compute in ("<<<M1106>>>" ++ check (runes_of_ascii "MetaData
+// c
+tag { }")).
+Eval vm_compute in ("<<<M95>>>" ++ check (runes_of_ascii "
+packet  Logon {}
+")).
+Eval vm_compute in ("<<<M1046>>>" ++ check (runes_of_ascii "packet A {
 }
-    // c3
-")).
-Eval vm_compute in ("<<<M708>>>" ++ check (runes_of_ascii "// @lengthOf(
-packet i8i8 { u128 o ,")).
-Eval vm_compute in ("<<<M1043>>>" ++ check (runes_of_ascii "packet A {
- u8 x `d 	`, // c 	
-}")).
-Eval vm_compute in ("<<<M1018>>>" ++ check (runes_of_ascii "packet A {
- u8 x `d" ++ [8233]%N ++ runes_of_ascii "`, // c" ++ [8233]%N ++ runes_of_ascii "
-}")).
-Eval vm_compute in ("<<<M947>>>" ++ check (runes_of_ascii "packet A {
-    u8 x `x
-`,
-}")).
-Eval vm_compute in ("<<<M1111>>>" ++ check (runes_of_ascii "MetaData tag { } // c
-")).
-Eval vm_compute in ("<<<M1136>>>" ++ check (runes_of_ascii "MetaData u { } // c
-")).
-Eval vm_compute in ("<<<M987>>>" ++ check (runes_of_ascii "// c" ++ [160]%N ++ runes_of_ascii "
-packet A {
-}")).
-Eval vm_compute in ("<<<M1232>>>" ++ check (runes_of_ascii "packet x { } // c
-")).
-Eval vm_compute in ("<<<M1391>>>" ++ check (runes_of_ascii "packet x {
+// c" ++ [8203]%N)).
+Eval vm_compute in ("<<<M1049>>>" ++ check (runes_of_ascii "packet A {
+}// c" ++ [65279]%N)).
+Eval vm_compute in ("<<<M319>>>" ++ check (runes_of_ascii "packet o
+{
 }
-// c")).
-Eval vm_compute in ("<<<M1895>>>" ++ check (runes_of_ascii "// @lengthOf(")).
-Eval vm_compute in ("<<<M1010>>>" ++ check (runes_of_ascii "// c" ++ [8232]%N)).
-Eval vm_compute in ("<<<M735>>>" ++ check ([0]%N)).
+")).
+Eval vm_compute in ("<<<M990>>>" ++ check (runes_of_ascii "// c" ++ [133]%N)).
+Eval vm_compute in ("<<<M725>>>" ++ check (runes_of_ascii " ")).
